@@ -1,9 +1,9 @@
 (* driver for the C03 model: one case per line
    run <known-path-cps> <card> <msgs> <partial> <eof> <ext> <ext_at|-1> <policy> <fin> <nops> <op>* <nh> (<k-cps> <v-cps>)*
        card   = UU|US|SU|SS          ext = none|reset|close
-       fin0   = ret | grpc:<code>:<msg> | exc | base        msg = <cps> | ~ (None)
+       fin0   = ret | grpc:<code>:<msg> | exc | timeout | streamterm | protocol | base       msg = <cps> | ~ (None)
        fin    = <fin0> | wait        policy = H | S/<fin0>
-       op     = R | I | M | C | S | T:<code>:<msg>
+       op     = R | I | M | C | S | P | T:<code>:<msg> | I! | M! | T!:<code>:<msg>     (! = fails part-way)
    answer: <verdict>|<frames>|<results>|<end>|<accepted><well_formed>|<final status>
        verdict = abort:<i> | accept:<none|invalid|expired|valid>
        frames  = H:<end>:<k>/<v>;... | T:<end>:<k>/<v>;... | D | R      (space separated)
@@ -16,7 +16,10 @@ let show_opt_msg = function None -> "~" | Some m -> string_of_cps m
 let parse_fin0 w =
   match split_on ':' w with
   | ["ret"] -> Return
-  | ["exc"] -> RaiseException
+  | ["exc"] -> RaiseException XPlain
+  | ["timeout"] -> RaiseException XTimeout
+  | ["streamterm"] -> RaiseException XStreamTerminated
+  | ["protocol"] -> RaiseException XProtocol
   | ["base"] -> RaiseBase
   | ["grpc"; c; m] -> RaiseGRPC (z_of_int (int_of_string c), opt_msg m)
   | _ -> failwith ("fin0 " ^ w)
@@ -27,8 +30,10 @@ let parse_policy w =
   else failwith ("policy " ^ w)
 let parse_op w =
   match split_on ':' w with
-  | ["R"] -> Recv | ["I"] -> SendInitial | ["M"] -> SendMessage | ["C"] -> Cancel | ["S"] -> Sleep
-  | ["T"; c; m] -> SendTrailing (z_of_int (int_of_string c), opt_msg m)
+  | ["R"] -> Recv | ["I"] -> SendInitial false | ["M"] -> SendMessage false | ["C"] -> Cancel | ["S"] -> Sleep
+  | ["I!"] -> SendInitial true | ["M!"] -> SendMessage true | ["P"] -> Pause
+  | ["T"; c; m] -> SendTrailing (z_of_int (int_of_string c), opt_msg m, false)
+  | ["T!"; c; m] -> SendTrailing (z_of_int (int_of_string c), opt_msg m, true)
   | _ -> failwith ("op " ^ w)
 let parse_card = function "UU" -> UU | "US" -> US | "SU" -> SU | "SS" -> SS | w -> failwith ("card " ^ w)
 let parse_ext = function "none" -> ENone | "reset" -> EReset | "close" -> EClose | w -> failwith ("ext " ^ w)
@@ -44,9 +49,11 @@ let show_frame f =
   | FHeaders _ -> (match render f with Some (hs, e) -> "H:" ^ word_of_bool e ^ ":" ^ show_headers hs | None -> "?")
   | FTrailers _ -> (match render f with Some (hs, e) -> "T:" ^ word_of_bool e ^ ":" ^ show_headers hs | None -> "?")
 let show_res = function ROk -> "ok" | RRefused -> "refused" | RH2Err -> "h2err" | RMsg -> "msg" | REof -> "eof"
-                      | RAssert -> "assert" | RCancelled -> "cancelled"
+                      | RAssert -> "assert" | RCancelled -> "cancelled" | RError -> "error"
 let show_cause = function CReset -> "reset" | CClose -> "close" | CDeadline -> "deadline"
-let show_fin0 = function Return -> "ret" | RaiseGRPC _ -> "grpc" | RaiseException -> "exc" | RaiseBase -> "base"
+let show_fin0 = function Return -> "ret" | RaiseGRPC _ -> "grpc" | RaiseBase -> "base"
+  | RaiseException XPlain -> "exc" | RaiseException XTimeout -> "timeout"
+  | RaiseException XStreamTerminated -> "streamterm" | RaiseException XProtocol -> "protocol"
 let show_end = function
   | KNotRun -> "notrun" | KHang -> "hang"
   | KFin f -> "fin:" ^ show_fin0 f
